@@ -18,6 +18,6 @@ git apply -R $SD/patch.diff
 go test -count=1 -run "^($NAMES)\$" -timeout 10m . > $SD/demo_without.log 2>&1; echo "DEMO-WITHOUT-PATCH exit=$?" >> $LOG
 for f in $DEMOS; do rm -f $WT/$(basename $f); done
 git apply $SD/patch.diff
-go test -count=1 -timeout 25m . ./internal/... ./cmd/... > $SD/suite_with.log 2>&1; echo "SUITE-WITH-PATCH exit=$?" >> $LOG
+go test -count=1 -timeout 120m . ./internal/... ./cmd/... > $SD/suite_with.log 2>&1; echo "SUITE-WITH-PATCH exit=$?" >> $LOG
 grep -E "^(ok|FAIL|---)" $SD/suite_with.log | head -30 >> $LOG
 echo DONE >> $LOG
